@@ -132,64 +132,93 @@ Proof.
   destruct Hi as [Hi|Hi]; [exact (rookAttacks_in_board sq i _ Hs Hi) | exact (bishopAttacks_in_board sq i _ Hs Hi)].
 Qed.
 
+Lemma knightBlock_shape l m : In m (revKnightBlock wm q l) -> In m l \/ PieceUn WKNIGHT aN m.
+Proof.
+  intro H.
+  exact (pieceLoop_shape WKNIGHT aN _ l m (or_intror (or_intror (or_intror (or_introl eq_refl))))
+           (fun sq _ => proj2 (knightAttacks_lt sq)) (fun sq Hx => Hx)
+           (BoardOK_ptBB_lt q _ BO (codes WKNIGHT (or_intror (or_intror (or_intror (or_introl eq_refl)))))) H).
+Qed.
+
+Lemma bishopBlock_shape l m : In m (revBishopBlock wm q l) -> In m l \/ PieceUn WBISHOP aB m.
+Proof.
+  intro H.
+  exact (pieceLoop_shape WBISHOP aB _ l m (or_intror (or_intror (or_introl eq_refl)))
+           (fun sq Hs => bishopAttacks_lt sq occ Hs) (fun sq Hx => Hx)
+           (BoardOK_ptBB_lt q _ BO (codes WBISHOP (or_intror (or_intror (or_introl eq_refl))))) H).
+Qed.
+
+Lemma queenBlock_shape l m : In m (revQueenBlock wm q l) -> In m l \/ PieceUn WQUEEN aQ m.
+Proof.
+  intro H.
+  exact (pieceLoop_shape WQUEEN aQ _ l m (or_introl eq_refl) aQ_lt (fun sq Hx => Hx)
+           (BoardOK_ptBB_lt q _ BO (codes WQUEEN (or_introl eq_refl))) H).
+Qed.
+
+Lemma rookSquares_sub sq : N.testbit (revRookSquares wm q) sq = true -> N.testbit (ptBB q (myPiece wm WROOK)) sq = true.
+Proof.
+  intro Hs. unfold revRookSquares, andn in Hs. cbv zeta in Hs.
+  destruct (a1Castle q), (h1Castle q), (a8Castle q), (h8Castle q);
+    repeat (rewrite N.ldiff_spec in Hs; apply andb_true_iff in Hs; destruct Hs as (Hs & _)); exact Hs.
+Qed.
+Lemma rookSquares_lt : revRookSquares wm q < 2 ^ 64.
+Proof.
+  assert (Hl : ptBB q (myPiece wm WROOK) < 2 ^ 64) by (apply (BoardOK_ptBB_lt q _ BO); apply codes; cbn; tauto).
+  unfold revRookSquares, andn. cbv zeta.
+  destruct (a1Castle q), (h1Castle q), (a8Castle q), (h8Castle q); repeat apply ldiff_lt; exact Hl.
+Qed.
+
+Lemma rookBlock_shape l m : In m (revRookBlock wm q l) ->
+  In m l \/ (PieceUn WROOK aR m /\ N.testbit (revRookSquares wm q) (mto m) = true).
+Proof.
+  intro H.
+  assert (H' : In m (forSquares (revRookSquares wm q) (fun l sq => revAddMovesByMask l (andn (aR sq) occ) sq EMPTY) l)) by exact H.
+  clear H.
+  apply (revLoop_In (fun sq => andn (aR sq) occ)) in H'; [|exact rookSquares_lt | intros sq Hs; apply ldiff_lt, rookAttacks_lt; exact Hs].
+  destruct H' as [H|(sq & s0 & Hs & Hb & ->)]; [left; exact H|]. right.
+  assert (Hin : In (mkMove s0 sq EMPTY) (forSquares (revRookSquares wm q) (fun l sq => revAddMovesByMask l (andn (aR sq) occ) sq EMPTY) [])).
+  { apply (revLoop_In (fun sq => andn (aR sq) occ)); [exact rookSquares_lt | intros sq' Hs'; apply ldiff_lt, rookAttacks_lt; exact Hs' |].
+    right. exists sq, s0. split; [exact Hs | split; [exact Hb | reflexivity]]. }
+  apply (pieceLoop_shape WROOK aR _ _ _ (or_intror (or_introl eq_refl)) (fun sq Hs' => rookAttacks_lt sq occ Hs') rookSquares_sub rookSquares_lt) in Hin.
+  destruct Hin as [[]|Hin]. split; [exact Hin | exact Hs].
+Qed.
+
+Lemma kingBlock_shape l m : In m (revKingBlock wm q l) ->
+  In m l \/ (PieceUn WKING aK m /\ kingGuard (mto m) = true) \/
+  (exists k0 kSq, m = mkMove k0 kSq EMPTY /\ (k0 = E1 \/ k0 = E8) /\ (kSq = k0 + 2 \/ kSq + 2 = k0)).
+Proof.
+  intro H. unfold revKingBlock in H. cbv zeta in H.
+  destruct (kingSq_spec_B q wm BO HKex) as (Hk64 & Hkp).
+  set (ks := kingSq q wm) in *.
+  destruct (negb (((ks =? E1) && (a1Castle q || h1Castle q)) || ((ks =? E8) && (a8Castle q || h8Castle q)))) eqn:G; [|left; exact H].
+  apply castleClause_shape in H; [|destruct wm; cbv; reflexivity].
+  destruct H as [H|(Hm & Hs)].
+  2:{ right. right. exists (if wm then E1 else E8), (if wm then C1 else C8). split; [exact Hm|]. destruct wm; cbv; auto. }
+  apply castleClause_shape in H; [|destruct wm; cbv; reflexivity].
+  destruct H as [H|(Hm & Hs)].
+  2:{ right. right. exists (if wm then E1 else E8), (if wm then G1 else G8). split; [exact Hm|]. destruct wm; cbv; auto. }
+  apply revAdd_In in H; [|apply ldiff_lt, kingAttacks_lt].
+  destruct H as [H|(s0 & Hb & ->)]; [left; exact H|]. right. left.
+  unfold andn in Hb. rewrite N.ldiff_spec in Hb. apply andb_true_iff in Hb. destruct Hb as (Hb1 & Hb2).
+  apply negb_true_iff in Hb2.
+  assert (Hs0 : s0 < 64) by (apply (bits_below_64 _ (kingAttacks_lt ks) s0 Hb1)).
+  rewrite occ_bit in Hb2. replace (s0 <? 64) with true in Hb2 by (symmetry; apply N.ltb_lt; exact Hs0).
+  cbn [andb] in Hb2. apply negb_false_iff, N.eqb_eq in Hb2.
+  split; [|exact G]. unfold PieceUn. cbn [mfrom mto mpromote]. repeat split; auto.
+Qed.
+
 Theorem raw_piece_shape m :
   In m (genMovesNoUndoInfo q) -> mpromote m = EMPTY -> isPawnPiece (getPiece q (mto m)) = false -> RawPiece m.
 Proof.
   intros H Hpr Hnp. unfold genMovesNoUndoInfo in H. cbv zeta in H. fold wm in H.
   apply promoBlock_shape in H. destruct H as [H|H]; [|contradiction].
   apply pawnBlock_shape in H. destruct H as [H|H]; [|rewrite H in Hnp; destruct wm; discriminate].
-  (* king block *)
-  assert (HK : In m (revKnightBlock wm q (revBishopBlock wm q (revRookBlock wm q (revQueenBlock wm q [])))) \/
-               (PieceUn WKING aK m /\ kingGuard (mto m) = true) \/
-               (exists k0 kSq, m = mkMove k0 kSq EMPTY /\ (k0 = E1 \/ k0 = E8) /\ (kSq = k0 + 2 \/ kSq + 2 = k0))).
-  { unfold revKingBlock in H. cbv zeta in H.
-    destruct (kingSq_spec_B q wm BO HKex) as (Hk64 & Hkp).
-    set (ks := kingSq q wm) in *.
-    destruct (negb (((ks =? E1) && (a1Castle q || h1Castle q)) || ((ks =? E8) && (a8Castle q || h8Castle q)))) eqn:G; [|left; exact H].
-    apply castleClause_shape in H; [|destruct wm; cbv; reflexivity].
-    destruct H as [H|(Hm & Hs)].
-    2:{ right. right. exists (if wm then E1 else E8), (if wm then C1 else C8). split; [exact Hm|]. destruct wm; cbv; auto. }
-    apply castleClause_shape in H; [|destruct wm; cbv; reflexivity].
-    destruct H as [H|(Hm & Hs)].
-    2:{ right. right. exists (if wm then E1 else E8), (if wm then G1 else G8). split; [exact Hm|]. destruct wm; cbv; auto. }
-    apply revAdd_In in H; [|apply ldiff_lt, kingAttacks_lt].
-    destruct H as [H|(s0 & Hb & ->)]; [left; exact H|]. right. left.
-    unfold andn in Hb. rewrite N.ldiff_spec in Hb. apply andb_true_iff in Hb. destruct Hb as (Hb1 & Hb2).
-    apply negb_true_iff in Hb2.
-    assert (Hs0 : s0 < 64) by (apply (bits_below_64 _ (kingAttacks_lt ks) s0 Hb1)).
-    rewrite occ_bit in Hb2. replace (s0 <? 64) with true in Hb2 by (symmetry; apply N.ltb_lt; exact Hs0).
-    cbn [andb] in Hb2. apply negb_false_iff, N.eqb_eq in Hb2.
-    split; [|exact G]. unfold PieceUn. cbn [mfrom mto mpromote]. repeat split; auto. }
-  destruct HK as [HK|[HK|HK]]; [|right; right; right; right; left; exact HK | right; right; right; right; right; exact HK].
-  unfold revKnightBlock in HK. cbv zeta in HK.
-  apply (pieceLoop_shape WKNIGHT aN) in HK; try (cbn; tauto); try (intros; apply knightAttacks_lt); try auto;
-    [|apply (BoardOK_ptBB_lt q _ BO); apply codes; cbn; tauto].
-  destruct HK as [HK|HK]; [|right; right; right; left; exact HK].
-  unfold revBishopBlock in HK. cbv zeta in HK.
-  apply (pieceLoop_shape WBISHOP aB) in HK; try (cbn; tauto); try (intros; apply bishopAttacks_lt; assumption); try auto;
-    [|apply (BoardOK_ptBB_lt q _ BO); apply codes; cbn; tauto].
-  destruct HK as [HK|HK]; [|right; right; left; exact HK].
-  unfold revRookBlock in HK. cbv zeta in HK.
-  assert (HRm : forall sq, N.testbit (revRookSquares wm q) sq = true -> N.testbit (ptBB q (myPiece wm WROOK)) sq = true).
-  { intros sq Hs. unfold revRookSquares, andn in Hs. cbv zeta in Hs.
-    destruct (a1Castle q), (h1Castle q), (a8Castle q), (h8Castle q);
-      repeat (rewrite N.ldiff_spec in Hs; apply andb_true_iff in Hs; destruct Hs as (Hs & _)); exact Hs. }
-  assert (HRlt : revRookSquares wm q < 2 ^ 64).
-  { assert (Hl : ptBB q (myPiece wm WROOK) < 2 ^ 64) by (apply (BoardOK_ptBB_lt q _ BO); apply codes; cbn; tauto).
-    unfold revRookSquares, andn. cbv zeta.
-    destruct (a1Castle q), (h1Castle q), (a8Castle q), (h8Castle q); repeat apply ldiff_lt; exact Hl. }
-  assert (HR : In m (revQueenBlock wm q []) \/ (PieceUn WROOK aR m /\ N.testbit (revRookSquares wm q) (mto m) = true)).
-  { apply revLoop_In in HK; [|exact HRlt | intros sq Hs; apply ldiff_lt, rookAttacks_lt; exact Hs].
-    destruct HK as [HK|(sq & s0 & Hs & Hb & ->)]; [left; exact HK|]. right.
-    assert (Hin : In (mkMove s0 sq EMPTY) (forSquares (revRookSquares wm q) (fun l sq => revAddMovesByMask l (andn (aR sq) occ) sq EMPTY) [])).
-    { apply revLoop_In; [exact HRlt | intros sq' Hs'; apply ldiff_lt, rookAttacks_lt; exact Hs' |]. right. exists sq, s0. auto. }
-    apply (pieceLoop_shape WROOK aR) in Hin; try (cbn; tauto); try (intros; apply rookAttacks_lt; assumption); try assumption.
-    destruct Hin as [[]|Hin]. split; [exact Hin | exact Hs]. }
-  destruct HR as [HR|HR]; [|right; left; exact HR].
-  unfold revQueenBlock in HR. cbv zeta in HR.
-  apply (pieceLoop_shape WQUEEN aQ) in HR; try (cbn; tauto); try (intros; apply aQ_lt; assumption); try auto;
-    [|apply (BoardOK_ptBB_lt q _ BO); apply codes; cbn; tauto].
-  destruct HR as [[]|HR]. left. exact HR.
+  apply kingBlock_shape in H. destruct H as [H|[H|H]];
+    [|right; right; right; right; left; exact H | right; right; right; right; right; exact H].
+  apply knightBlock_shape in H. destruct H as [H|H]; [|right; right; right; left; exact H].
+  apply bishopBlock_shape in H. destruct H as [H|H]; [|right; right; left; exact H].
+  apply rookBlock_shape in H. destruct H as [H|H]; [|right; left; exact H].
+  apply queenBlock_shape in H. destruct H as [[]|H]. left. exact H.
 Qed.
 
 End RawShape.
